@@ -39,12 +39,12 @@ def writes_of(elem):
 
 
 def written_between(fn, branch_block, succ, site, var_ids):
-    """is any var written on a path from succ (after branch) to the site?"""
+    """is any var written on a path from succ (after the branch) to the site that does
+    not pass through the branch block again?"""
     sb, si = site
-    fwd = fn.reach_from([succ])
+    fwd = fn.reach_from([succ], avoid=[branch_block])
     if sb not in fwd:
         return False
-    # blocks that can reach the site
     back = set()
     st = [sb]
     while st:
@@ -54,12 +54,12 @@ def written_between(fn, branch_block, succ, site, var_ids):
         back.add(b)
         st.extend(p for p in fn.blocks[b].preds if p in fwd)
     between = fwd & back
+    # is the site block on a cycle that avoids the branch block?
+    cyc = sb in fn.reach_from([x for x in fn.blocks[sb].rsucc() if x in fwd], avoid=[branch_block])
     for b in between:
         elems = fn.blocks[b].elems
-        lim = si if (b == sb and not _in_loop_with(fn, b)) else len(elems)
-        for i, e in enumerate(elems[:lim]):
-            if b == branch_block:
-                continue
+        lim = len(elems) if (b != sb or cyc) else si
+        for e in elems[:lim]:
             if writes_of(e) & var_ids:
                 return True
     return False
@@ -120,7 +120,7 @@ def feasible_values(fn, site, vnode, width=64):
             s, known = r_mpt.edge_for_value(fn, bid, c, atom, val)
             if not known:
                 continue     # other unknown terms: passable
-            if s is None or site[0] not in fn.reach_from([s]):
+            if s is None or site[0] not in fn.reach_from([s], avoid=[bid]):
                 ok = False
                 break
         if ok:
@@ -149,7 +149,7 @@ def excludes_zero(fn, site, vnode, zero_value=0, width=64):
         s, known = r_mpt.edge_for_value(fn, bid, c, atom, zero_value)
         if not known:
             continue
-        if s is None or site[0] not in fn.reach_from([s]):
+        if s is None or site[0] not in fn.reach_from([s], avoid=[bid]):
             # the excluding edge found; check no rewrite after the branch on the passing side
             other = [x for x in fn.blocks[bid].rsucc() if x != s]
             if any(written_between(fn, bid, o, site, vids) for o in other):
